@@ -193,8 +193,10 @@ where
             nodes: extend_lpm(
                 self.table,
                 other.table,
-                self.table[self.loc.idx()].prefix_value(),
-                other.table[other.loc.idx()].prefix_value(),
+                // the roots' own values are added by `extend_lpm` for exactly those entries whose
+                // prefix they cover; nothing outside of the two views may be inherited.
+                None,
+                None,
                 next_indices(
                     self.table,
                     other.table,
